@@ -426,7 +426,7 @@ struct Gen {
 		{ Op c = mk("close", ca.c); c.a.set("how", JV::str(r.chance(0.7) ? "fin" : "hup")); c.dt = r.chance(0.5) ? 0 : 1000; p.ops.push_back(c); ca.alive = false; for (auto it = owner_of.begin(); it != owner_of.end();) if (it->second == ca.c) it = owner_of.erase(it); else ++it; }
 		if (r.chance(0.6)) op_connect();
 		{ Op a = mk("advance"); a.dt = never ? 6000000000ULL : 1000000000ULL; p.ops.push_back(a); }
-		if (never && r.chance(0.5)) { Op c = mk("close", ow.c); c.a.set("how", JV::str("fin")); c.dt = 1000; p.ops.push_back(c); ow.alive = false; for (auto it = owner_of.begin(); it != owner_of.end();) if (it->second == ow.c) it = owner_of.erase(it); else ++it; }
+		if (never && r.chance(0.5)) { GClient &ow2 = cl[(size_t)oi]; /* op_connect() may have moved the vector */ Op c = mk("close", ow2.c); c.a.set("how", JV::str("fin")); c.dt = 1000; p.ops.push_back(c); ow2.alive = false; int oc = ow2.c; for (auto it = owner_of.begin(); it != owner_of.end();) if (it->second == oc) it = owner_of.erase(it); else ++it; }
 	}
 	// a caller resets its connection at the instant the owner's answers arrive: the daemon finds the answer for the vanished caller
 	// undeliverable (EPIPE) before it has noticed the hang-up; the owner and the other caller must not be affected
@@ -463,6 +463,29 @@ struct Gen {
 		for (int k = 0; k < nreq; k++) { JV pr = JV::obj(); pr.set("path", JV::str(path)); pr.set("value", fresh_value()); pr.set("timeout", JV::num(to)); int from = r.chance(0.7) ? ca.c : cl[(size_t)ix[r.below(ix.size())]].c; Op o = mk("send", from); o.a.set("msg", request("set", pr, false)); o.hold = true; p.ops.push_back(o); }
 		{ Op a = mk("advance"); a.dt = (uint64_t)(to * 1e9) + (r.chance(0.5) ? 0 : 1000); a.hold = r.chance(0.5); p.ops.push_back(a); }
 		{ Op po = mk("policy", ow.c); po.a.set("mode", JV::str("result")); p.ops.push_back(po); }
+	}
+
+	// a request times out; its caller asks again (numeric ids, as many clients use) while the owner's answer to the first is still on its way:
+	// the late answer belongs to nobody, the second request gets its own
+	void pat_retry_after_timeout() {
+		std::vector<int> ix; for (size_t i = 0; i < cl.size(); i++) if (cl[i].alive) ix.push_back((int)i);
+		if (ix.size() < 2) return;
+		int oi = ix[r.below(ix.size())], ci = oi; while (ci == oi) ci = ix[r.below(ix.size())];
+		GClient &ow = cl[(size_t)oi], &ca = cl[(size_t)ci];
+		std::string path = "retry/" + std::to_string(++idctr);
+		{ Op po = mk("policy", ow.c); po.a.set("mode", JV::str("result")); po.a.set("delay", JV::num(200000000)); p.ops.push_back(po); }   // answers after 200 ms
+		{ JV pr = JV::obj(); pr.set("path", JV::str(path)); pr.set("value", JV::num(1)); emit(ow.c, "add", pr); }
+		bool numeric = r.chance(0.7);
+		auto ask = [&](double to, uint64_t dt) {
+			JV pr = JV::obj(); pr.set("path", JV::str(path)); pr.set("value", fresh_value()); pr.set("timeout", JV::num(to));
+			JV q = JV::obj(); q.set("id", numeric ? JV::num((double)(7000 + ++idctr)) : JV::str("r" + std::to_string(++idctr))); q.set("method", JV::str("set")); q.set("params", pr);
+			Op o = mk("send", ca.c); o.a.set("msg", q); o.dt = dt; o.hold = false; p.ops.push_back(o);
+		};
+		ask(0.05, 1000);                       // times out after 50 ms
+		ask(1.0, 100000000);                   // asked again at 100 ms; the first answer arrives at 200 ms, the second at 300 ms
+		if (r.chance(0.4)) ask(1.0, 0);
+		{ Op a = mk("advance"); a.dt = 500000000ULL; p.ops.push_back(a); }
+		{ Op po = mk("policy", ow.c); po.a.set("mode", JV::str("result")); po.a.set("delay", JV::num(0)); p.ops.push_back(po); }
 	}
 
 	// rights must follow the *current* authentication of the *requesting* peer: re-authenticate as a user with fewer rights, ask on behalf of nobody
@@ -727,7 +750,7 @@ Plan gen_base(const std::string &profile, uint64_t seed, const JV &opts) {
 		else if ((profile == "c03" || profile == "c05" || profile == "base" || profile == "c14") && x < 0.262 && i > 1) g.pat_owner_removes_then_caller_leaves();
 		else if ((profile == "c04" || profile == "base") && x < 0.275 && i > 0) g.pat_fetchonly_owner();
 		else if ((profile == "base" || profile == "c02b" || profile == "c01" || profile == "c03") && x < 0.29 && x >= 0.275 && i > 0 && g.p.ops.size() < 300) g.pat_burst();
-		else if ((profile == "c14" || profile == "c03") && x < 0.30 && i > 1) g.pat_double_expiry();
+		else if ((profile == "c14" || profile == "c03") && x < 0.30 && i > 1) { if (r.chance(0.4)) g.pat_retry_after_timeout(); else g.pat_double_expiry(); }
 		else if ((profile == "c03" || profile == "c05" || profile == "c02b") && x < 0.315 && i > 2) g.pat_caller_reset_races_reply();
 		else if (profile == "c08" && x < 0.31 && i > 0) g.pat_rights();
 		else if ((profile == "c11" || profile == "c11x") && x < 0.33 && !faulty_cs.empty()) {
@@ -1071,7 +1094,19 @@ static void set_header(HsParts &h, const std::string &lname, const std::string &
 static std::string invalid_request(Rng &r, std::string &defect, int maxline) {
 	HsParts h = valid_handshake(r);
 	drop_header(h, "sec-websocket-extensions");
-	switch (r.below(17)) {
+	switch (r.below(19)) {
+	case 17: case 18: {
+		// a required header is present but empty, and the header that follows it (one the server does not know) carries what would have been an acceptable value
+		bool ver = r.chance(0.5);
+		drop_header(h, ver ? "sec-websocket-version" : "sec-websocket-key");
+		std::vector<std::string> hs2;
+		for (auto &l : h.headers) hs2.push_back(l);
+		size_t pos = r.below(hs2.size() + 1);
+		std::string empty_line = ver ? (r.chance(0.5) ? "Sec-WebSocket-Version:" : "Sec-WebSocket-Version: ") : (r.chance(0.5) ? "Sec-WebSocket-Key:" : "Sec-WebSocket-Key: ");
+		std::string next_line = ver ? (r.chance(0.5) ? "X-Client-Revision: 13" : "X-Api-Level: 13") : "Cookie: sessionid=0123456789abcd";
+		hs2.insert(hs2.begin() + (long)pos, next_line); hs2.insert(hs2.begin() + (long)pos, empty_line);
+		h.headers = hs2;
+		defect = ver ? "empty Sec-WebSocket-Version" : "empty Sec-WebSocket-Key"; break; }
 	case 16: {
 		// line endings the parser tolerates (bare LF): validity is debatable, so there is no expectation on the answer - only on memory safety and cleanliness
 		std::string s = h.method + " " + h.target + " " + h.version + (r.chance(0.7) ? "\n" : "\r\n");
@@ -1440,6 +1475,8 @@ Plan gen_c20(const std::string &profile, uint64_t seed, const JV &opts) {
 			double y = r.unit();
 			std::string target = y < 0.5 ? who[ci] : y < 0.9 ? us[r.below(us.size())].name : "nobody";
 			std::string npw = mkpw(target + std::to_string(++pwctr));
+			// where messages may be that long: a passphrase at the limit of what crypt(3) hashes (511 bytes) or beyond it (512 and more)
+			if (g_variant.max_message > 2000 && r.chance(0.3)) { size_t L = r.chance(0.4) ? 511 : 512 + r.below(40); while (npw.size() < L) npw += (char)('a' + r.below(26)); }
 			pr.set("user", JV::str(target)); pr.set("password", JV::str(npw));
 			o.a.set("msg", g.request("passwd", pr, false));
 			// what the reference model will decide is not tracked here; follow-up authentications try both passwords anyway
